@@ -1,3 +1,4 @@
+import TemplVerif.Generated.Skeletons
 import TemplVerif.Model.Fs
 import TemplVerif.Proofs.Fs
 import TemplVerif.Generated.Walk
@@ -103,5 +104,21 @@ example :
     get s1.fs [97, 47, 95, 117, 95, 116, 101, 109, 112, 108, 46, 103, 111] = some [71, 3] ∧
     get s1.fs [95, 116, 47, 113, 95, 116, 101, 109, 112, 108, 46, 103, 111] = none := by
   decide
+
+-- BEGIN transcription pins (written by tools/mkpins.py)
+/-- T1, transcription pins: the control structure and calls (extract/skeleton.go) of the functions whose models
+    were written by hand are the ones the models were transcribed from:
+      cmd/templ/generatecmd/eventhandler.go FileWriter
+      cmd/templ/generatecmd/eventhandler.go FSEventHandler.HandleEvent
+      cmd/templ/generatecmd/eventhandler.go FSEventHandler.UpsertLastModTime
+      cmd/templ/generatecmd/watcher/watch.go WalkFiles
+    A change of what one of them calls or how it branches breaks this theorem; the check then searches for a
+    failing input and reports either that or `no-failing-input-found`. -/
+theorem C15_transcription_pinned :
+    Generated.skel_events_FileWriter = 9076450457970906327 ∧
+    Generated.skel_events_HandleEvent = 10248215779350580241 ∧
+    Generated.skel_events_UpsertLastModTime = 11220885732069580640 ∧
+    Generated.skel_walk_WalkFiles = 17625773593303583570 := by decide
+-- END transcription pins
 
 end TemplVerif.Props.C15
